@@ -739,8 +739,11 @@ def _loglikelihood_is_likelihood(repo, k: Kernel) -> List[str]:
             out.append(f"no {pname} property")
         else:
             # an implicit / explicit `return None` for an unsupported target is not a source of the quantity
-            rets = [unparse(n.value) for n in ast.walk(p.getter) if isinstance(n, ast.Return) and n.value is not None
-                    and not (isinstance(n.value, ast.Constant) and n.value.value is None)]
+            # (returned values with local aliases such as `target = self.target` replaced by their definitions)
+            from ..flow import Expander
+            ex = Expander(p.getter)
+            rets = [unparse(ex.expand(r.ast.value, r)) for r in ex.cfg.returns() if r.ast.value is not None
+                    and not (isinstance(r.ast.value, ast.Constant) and r.ast.value.value is None)]
             if not rets or not all(rv in allowed for rv in rets):
                 out.append(f"{pname} property returns {rets}")
     return out
